@@ -5,8 +5,8 @@ import json, os, shutil, subprocess, sys, glob, time
 sys.path.insert(0, "/verif/bin")
 import seedtool
 
-RELATED = {"C01": ["C01", "C11"], "C02": ["C02", "C11", "C01"], "C03": ["C03"], "C04": ["C04"], "C05": ["C05"], "C06": ["C06"],
-           "C09": ["C09"], "C10": ["C10", "C18"], "C11": ["C11"], "C12": ["C12"], "C13": ["C13"], "C14": ["C14"], "C15": ["C15"],
+RELATED = {"C01": ["C01", "C11"], "C02": ["C02", "C11", "C01"], "C06": ["C06", "C16"], "C13": ["C13", "C16"], "C03": ["C03"], "C04": ["C04"], "C05": ["C05"],
+           "C09": ["C09"], "C10": ["C10", "C18"], "C11": ["C11"], "C12": ["C12"], "C14": ["C14"], "C15": ["C15"],
            "C16": ["C16", "C20"], "C18": ["C18"], "C19": ["C19"], "C20": ["C20"]}
 NOTES = json.load(open("/verif/seeded/notes.json")) if os.path.exists("/verif/seeded/notes.json") else {}
 
@@ -18,7 +18,7 @@ def repo_clean():
     rc, o = sh("git -C /repo status --porcelain")
     return o.strip() == ""
 
-dirs = sys.argv[1:] or sorted(glob.glob("/tmp/mut/C*/[ab]"))
+dirs = [a for a in sys.argv[1:] if not a.startswith("--")] or sorted(glob.glob("/tmp/mut/C*/[ab]"))
 for d in dirs:
     prop, var = d.split("/")[-2], d.split("/")[-1]
     sid = prop + var
